@@ -1,5 +1,25 @@
 """Which units / harnesses decide which property.  (The *contracts* live in units/ and kani/.)"""
 
+import os as _os, sys as _sys
+_sys.path.insert(0, _os.path.dirname(_os.path.abspath(__file__)))
+import wire as _wire
+
+DECODE_STRUCTS = [n for n in _wire.T if _wire.T[n]["crate"] == "nexrad-decode"]
+
+
+def layout_h(names):
+    return [dict(name="wire_layout_" + n, what="%s: %d bytes, every field at its ICD offset (%s), all byte values" % (
+        n, _wire.T[n]["wire"], _wire.T[n]["icd"])) for n in names]
+
+
+def prefix_h(names, tier="quick"):
+    out = []
+    for n in names:
+        for h in _wire.prefix_harnesses(n):
+            out.append(dict(name=h, tier=tier, what="%s: strict prefixes are Err, never a panic" % n))
+    return out
+
+
 STD_TRUST = [
     "Verus 0.2026.09.13 + Z3 (soundness of the verifier, vstd specs of Vec/Option/slice/iterators)",
     "rustc: the extracted text compiles to the same semantics inside verus!{} as in the crate",
@@ -46,7 +66,12 @@ CHECKS = {
                     "cursor, termination by remaining length.",
     ),
     "C05": dict(
-        verus=[dict(unit="container")],
+        verus=[dict(unit="container"), dict(unit="volume_scan", functions=["Record::", "File::records"])],
+        kani=[dict(crate="nexrad-data", files=["c05.rs", "c08.rs"], no_default_features=True, features=["decode"], harnesses=[
+            dict(name="c05_volume_header_text_fields", what="tape filename / extension number / ICAO accessors == header bytes 0..9 / 9..12 / 20..24 (ASCII)"),
+            dict(name="c08d_volume_header_date_time", what="date_time() == get_datetime(date, ms(time)) through the real 24-byte deserialize"),
+            dict(name="c08d_get_datetime_contract", what="the data crate's get_datetime contract, full domain"),
+        ])],
         trusted_base=STD_TRUST + ["i32::from_be_bytes / unsigned_abs std contracts; [u8]==[u8;N] compares contents"],
         not_decided=["decompress(record built from payload) == payload: reduces to bzip2's own round trip (C library behind FFI)",
                      ],
@@ -55,7 +80,10 @@ CHECKS = {
                     "well-formed data the records concatenate to the data and each is prefix+|size| bytes.",
     ),
     "C06": dict(
-        verus=[dict(unit="container")],
+        verus=[dict(unit="container"), dict(unit="volume_scan")],
+        kani=[dict(crate="nexrad-data", files=["c05.rs"], no_default_features=True, features=["decode"], harnesses=[
+            dict(name="c05_volume_header_prefix", what="File::header on every strict prefix of the 24-byte header: Err, never a panic"),
+        ])],
         trusted_base=STD_TRUST + ["i32::from_be_bytes / unsigned_abs std contracts; [u8]==[u8;N] compares contents"],
         not_decided=["Debug formatting plumbing (std::fmt builders) and bzip2 returning Err on corrupt streams are assumed"],
         explanation="Same unit as C05 without the well-formedness hypothesis: no slice/index/overflow obligation can fail and "
@@ -149,6 +177,64 @@ CHECKS = {
                     "tiling / unbz / decode_stream / radial_of, sweeps == maximal runs whose concatenation is that radial list, "
                     "VCP number == first VOL block's, Err iff a stage fails or no VOL block exists. No bound on records, "
                     "messages, elevations or radials.",
+    ),
+    "C02": dict(
+        kani=[dict(crate="nexrad-decode", files=["wire_layout.rs", "drd.rs", "c07.rs"], harnesses=
+            layout_h(["DrdHeader", "DataBlockId", "VolumeDataBlock", "ElevationDataBlock", "RadialDataBlock", "GenericDataBlockHeader"]) + [
+            dict(name="c02_generic_block_new_len", what="GenericDataBlock::new: gate buffer length == gates x (word_size/8) for all u16 x u8"),
+            dict(name="drd_route_vol", bounded="1 block, contents symbolic", what="VOL block delivered as volume block, others absent, reader ends after block"),
+            dict(name="drd_route_elv", bounded="1 block, contents symbolic", what="ELV routing"),
+            dict(name="drd_route_rad", bounded="1 block, contents symbolic", what="RAD routing"),
+            dict(name="drd_route_ref", bounded="1 block, gates<=2, word 8/16", what="REF routing, gate bytes intact"),
+            dict(name="drd_route_vel", bounded="1 block, gates<=2, word 8/16", tier="thorough", what="VEL routing"),
+            dict(name="drd_route_sw", bounded="1 block, gates<=2, word 8/16", tier="thorough", what="SW routing"),
+            dict(name="drd_route_zdr", bounded="1 block, gates<=2, word 8/16", tier="thorough", what="ZDR routing"),
+            dict(name="drd_route_phi", bounded="1 block, gates<=2, word 8/16", tier="thorough", what="PHI routing"),
+            dict(name="drd_route_rho", bounded="1 block, gates<=2, word 8/16", tier="thorough", what="RHO routing"),
+            dict(name="drd_route_cfp", bounded="1 block, gates<=2, word 8/16", tier="thorough", what="CFP routing"),
+            dict(name="drd_two_blocks_permuted_gap", bounded="2 blocks, permuted pointers, 4-byte gap", what="pointer order != layout order, gap between blocks"),
+        ])],
+        trusted_base=KANI_TRUST + ["in-harness Read+Seek slice reader stands for Cursor<&[u8]> (decoder uses only the Read/Seek contract)"],
+        not_decided=["all 2^10 block subsets x orders x pointer layouts are not enumerated: per-name routing and one two-block "
+                     "shape are bounded stand-ins (labelled bounded, not counted as proof)"],
+        explanation="Every field of every type-31 wire struct proved at its ICD offset through the real serde/bincode path "
+                    "for all byte values (complete); gate-buffer sizing for all u16 x u8 (complete); routing by block name is "
+                    "bounded (concrete structure, symbolic contents).",
+    ),
+    "C07": dict(
+        kani=[dict(crate="nexrad-decode", files=["c07.rs"], harnesses=[
+            dict(name="c07_radial_mapping", what="radial() == into_radial(); all header fields, spacing, status, timestamp; each moment wired to its own block; all 2^7 presence patterns, all finite scale/offset, 1 gate each"),
+            dict(name="c07_values_formula", bounded="gates <= 3 (8-bit words)", what="sentinels 0/1, (raw-offset)/scale, scale 0 rule; decode level == model level; all 256 raws, all finite scale/offset"),
+            dict(name="c07_values_one_per_gate_16bit", bounded="gates <= 3 (16-bit words)", what="exactly one value per gate for 16-bit moments"),
+        ])],
+        trusted_base=KANI_TRUST + ["IEEE-754 arithmetic as modelled by CBMC (bit-precise)"],
+        not_decided=["gate counts above 3 (bounded: the bound only limits std's map/collect unrolling)"],
+        explanation="Radial mapping proved over every header and every moment subset; value conversion complete in raw value, "
+                    "scale and offset but bounded in gate count.",
+    ),
+    "C04": dict(
+        verus=[dict(unit="framing"), dict(unit="vcp_decode"), dict(unit="cfm_decode")],
+        kani=[dict(crate="nexrad-decode", files=["wire_layout.rs", "drd.rs", "c08.rs"], harnesses=
+            prefix_h([n for n in DECODE_STRUCTS if n not in ("RdaStatus", "VolumeDataBlock", "VcpElevation")]) +
+            prefix_h(["RdaStatus", "VolumeDataBlock", "VcpElevation"], tier="thorough") + [
+            dict(name="c08_get_datetime_total", what="date conversion total on all u16 x u32 / u16 x u16"),
+            dict(name="drd_total_name_byte0", bounded="<=2 blocks, 80-byte buffer, one symbolic name byte", what="type-31 decode + radial conversion: value or error"),
+            dict(name="drd_total_name_byte1", bounded="<=2 blocks, 80-byte buffer, one symbolic name byte", tier="thorough", what="same, name byte 1"),
+            dict(name="drd_total_name_byte2", bounded="<=2 blocks, 80-byte buffer, one symbolic name byte", tier="thorough", what="same, name byte 2"),
+            dict(name="drd_total_name_xyz", bounded="<=2 blocks, 80-byte buffer, name XYZ", what="unknown block name is an error"),
+            dict(name="drd_total_name_nonutf8", bounded="<=2 blocks, 80-byte buffer, name FF FF FF", tier="thorough", what="non-UTF-8 name"),
+            dict(name="drd_total_truncated", bounded="every prefix of a 48-byte one-block message", what="truncated type-31 message is an error"),
+            dict(name="drd_total_count_extreme", bounded="block count 65535, 40-byte input", what="huge block count with short input is an error"),
+        ])],
+        trusted_base=STD_TRUST + KANI_TRUST + ["reader model (std::io)", "in-harness slice reader for the seeking decoder"],
+        not_decided=["peak-memory clause: allocation sizes are functions of 8/16-bit fields (proved for the gate buffer: "
+                     "c02_generic_block_new_len; Vec::with_capacity(u16) elsewhere) but an aggregate memory bound is a resource "
+                     "property no contract language here expresses",
+                     "type-31 totality over all 2^24 block names and all pointer layouts (bounded harnesses only)"],
+        explanation="Absence of panics and termination of decode_messages / decode_message_contents / decode_message_header / "
+                    "VCP / clutter-map decoders are by-products of the Verus proofs (every index, slice, overflow and decreases "
+                    "obligation) for all inputs; deserialize on every strict prefix of every wire struct is Err by complete Kani "
+                    "harnesses; the type-31 decoder is bounded.",
     ),
 }
 
